@@ -48,8 +48,8 @@ def absVal : Val → AVal
   | .flt f => .scalar f.fmtG .flt
   | .list xs => .list xs
   | .hash h => .hash (sortK (h.map fun (f, v) => (f, scalarText v)))
-  | .set ms => .set (ms.mergeSort bytesLe)
-  | .zset ms => .zset (sortK ms)
+  | .set _ ms => .set (ms.mergeSort bytesLe)
+  | .zset _ ms => .zset (sortK ms)
 
 def liveAt (now : Int) (exp : Option Int) : Bool :=
   match exp with
